@@ -15,9 +15,21 @@
  *         (0 = Application start time not yet set): fresh objects, no connections.
  *   K <node> <peer> <0|1>                       node's connection to endpoint #peer (0 = A, 1 = B, 2.. extras) goes down/up
  *   U <node> <now>                              ApiListener::UpdateObjectAuthority() on <node> at time <now>
- *   T <node> <now>                              Timer::VerifFireDue(now) on <node>   | f=<authority timer ran>
- * Every B/K/U/T line is followed by ` | ` and this node's observation: for every object of the case, in
- * order, `<paused>:<#Pause() calls>:<#Resume() calls>:<#SetPaused calls>`, comma separated.
+ *   X <node> <obj#> <now>                       two OVERLAPPING UpdateObjectAuthority() runs on <node>: the harness thread holds
+ *         ObjectLock(object #obj) while two threads run UpdateObjectAuthority(); when both are blocked in that object's
+ *         SetAuthority the lock is released.  Counts as ONE authority run.
+ *   N <node> <now>                              a (forced, custom) notification is requested for the case's first host:
+ *         Checkable::OnNotificationsRequested -> started NotificationComponent -> Checkable::SendNotifications
+ *   D <node> <obj#> <now>                       object #obj (a Host/Service) becomes due for a check (SetNextCheck(now)); the
+ *         started CheckerComponent's scheduler thread picks it up iff it is in its idle set
+ *   T <node> <now>                              Timer::VerifFireDue(now) on <node>   | f=<seq> <obs>...
+ *         seq: `a` authority timer ran, `n` notification timer ran, in firing order, `-` neither; one observation
+ *         (taken right after that timer's production handler returned) per letter, one observation for `-`
+ * Every B/K/U/X/N/D/T line is followed by ` | ` and this node's observation: for every object of the case, in
+ * order, `<paused>:<#Pause() calls>:<#Resume() calls>:<#SetPaused calls>:<#command executions>:<#stashed>`, comma
+ * separated (command executions: of the recording NotificationCommand for a Notification, of the recording
+ * CheckCommand for a Host/Service; stashed: length of a Notification's stashed_notifications).  Derived objects: Endpoints, Zone(s), ApiListener (not in layout N), then the node's started
+ * NotificationComponent `vnc` and CheckerComponent `vcc`.
  *
  * Modes:  gen --seed S --tier quick|thorough [--node A|B]    ops FILE [--node A|B]
  * Without --node the process only spawns itself twice (node A, node B), reads both outputs in lockstep
@@ -37,8 +49,16 @@
 #include "icinga/notification.hpp"
 #include "icinga/downtime.hpp"
 #include "icinga/comment.hpp"
+#include "icinga/notificationcommand.hpp"
+#include "icinga/checkcommand.hpp"
+#include "icinga/user.hpp"
+#include "base/function.hpp"
 #include "checker/checkercomponent.hpp"
 #include "notification/notificationcomponent.hpp"
+#include <atomic>
+#include <chrono>
+#include <mutex>
+#include <thread>
 #include <map>
 #include <set>
 #include <sys/stat.h>
@@ -51,6 +71,11 @@ namespace vh {
 VH_ROB_STATIC(UoaTag, std::atomic<bool> *type, ApiListener, m_UpdatedObjectAuthority)
 VH_ROB_MEMBER(RelayQTag, ApiListener, WorkQueue, m_RelayQueue)
 VH_ROB_MEMBER(SyncQTag, ApiListener, WorkQueue, m_SyncQueue)
+VH_ROB_MEMBER(AuthTimerTag, ApiListener, Timer::Ptr, m_AuthorityTimer)
+VH_ROB_MEMBER(NotifTimerTag, NotificationComponent, Timer::Ptr, m_NotificationTimer)
+VH_ROB_MEMBER(CcIdleTag, CheckerComponent, CheckerComponent::CheckableSet, m_IdleCheckables)
+VH_ROB_MEMBER(CcPendTag, CheckerComponent, CheckerComponent::CheckableSet, m_PendingCheckables)
+VH_ROB_MEMBER(CcMtxTag, CheckerComponent, std::mutex, m_Mutex)
 }
 
 /* ------------------------------------------------------------------------------------------- */
@@ -126,11 +151,11 @@ static std::string FreshName(Rng& rng, std::set<std::string>& used)
 	}
 }
 
-static void GenCase(Rng& rng, std::vector<std::string>& out, bool thorough, long& clock)
+static void GenCase(Rng& rng, std::vector<std::string>& out, bool thorough, long& clock, bool noListener)
 {
 	char buf[256];
-	int lk = (int)rng.below(20);
-	char layout = lk == 0 ? 'N' : lk <= 2 ? 'S' : 'P';
+	int lk = (int)rng.below(19);
+	char layout = noListener ? 'N' : lk <= 1 ? 'S' : 'P';
 	int nExtra = (layout == 'P' && rng.below(3) == 0) ? 1 + (int)rng.below(3) : 0;
 	std::set<std::string> epNames, zoneNames;
 	std::string nA = FreshName(rng, epNames), nB;
@@ -150,10 +175,14 @@ static void GenCase(Rng& rng, std::vector<std::string>& out, bool thorough, long
 	/* objects: the first one is always an active Host (Downtime/Comment/Notification/Service refer to it) */
 	int nObj = 1 + (int)rng.below(thorough ? 40 : 24);
 	std::map<char, std::set<std::string>> used;
-	const char types[] = "hhhsndckf";
+	const char types[] = "hhssnnndckf";
 	std::string shared = GenName(rng);
+	/* object numbers as the harness sees them: derived objects first */
+	int nDerived = (layout == 'N' ? 0 : layout == 'S' ? 5 : 2 + nExtra + 2) + 2;
+	std::vector<int> checkables;
 	for (int i = 0; i < nObj; i++) {
-		char t = i == 0 ? 'h' : types[rng.below(9)];
+		char t = i == 0 ? 'h' : types[rng.below(11)];
+		if (t == 'h' || t == 's') checkables.push_back(nDerived + i);
 		int ha = (i > 0 && rng.below(8) == 0) ? 1 : 0;
 		int active = (i > 0 && rng.below(10) == 0) ? 0 : 1;
 		std::string n;
@@ -177,6 +206,25 @@ static void GenCase(Rng& rng, std::vector<std::string>& out, bool thorough, long
 	}
 	int nEv = 4 + (int)rng.below(thorough ? 60 : 30);
 	bool up[2] = { false, false };
+	int nAll = nDerived + nObj;
+	bool racy = rng.below(3) == 0;    /* a share of the cases runs its authority updates as overlapping pairs */
+	auto update = [&](int k) {
+		if (racy && rng.below(3) != 0) snprintf(buf, sizeof buf, "X %c %d %ld", "AB"[k], (int)rng.below(nAll), now);
+		else snprintf(buf, sizeof buf, "U %c %ld", "AB"[k], now);
+		out.push_back(buf);
+	};
+	auto work = [&](int k, int r) {
+		/* r: 0..2 notification request, 3 notification/authority timers, 4..5 due check */
+		if (r <= 2) snprintf(buf, sizeof buf, "N %c %ld", "AB"[k], now);
+		else if (r == 3) snprintf(buf, sizeof buf, "T %c %ld", "AB"[k], now);
+		else snprintf(buf, sizeof buf, "D %c %d %ld", "AB"[k], checkables[rng.below(checkables.size())], now);
+		out.push_back(buf);
+	};
+	/* often: work right after the start, inside the cold-start window */
+	if (rng.below(2) == 0) {
+		int n = 1 + (int)rng.below(4);
+		for (int i = 0; i < n; i++) { now += (long)rng.below(4); work((int)rng.below(2), (int)rng.below(6)); }
+	}
 	for (int i = 0; i < nEv; i++) {
 		int r = (int)rng.below(100);
 		/* time: small steps around the 30 s window, sometimes a jump */
@@ -184,32 +232,34 @@ static void GenCase(Rng& rng, std::vector<std::string>& out, bool thorough, long
 		now += dt < 5 ? 0 : dt < 8 ? (long)rng.below(8) : dt == 8 ? (long)rng.below(40) : 25 + (long)rng.below(10);
 		int node = (int)rng.below(2);
 		if (layout == 'N' || layout == 'S') {
-			if (r < 70) { snprintf(buf, sizeof buf, "%c %c %ld", r < 50 ? 'U' : 'T', "AB"[node], now); out.push_back(buf); }
-			else if (r < 85 && layout == 'S') { snprintf(buf, sizeof buf, "K %c %d %d", "AB"[node], 1 - node, (int)rng.below(2)); out.push_back(buf); }
-			else if (r < 90) { snprintf(buf, sizeof buf, "B %c %ld", "AB"[node], now); out.push_back(buf); }
+			if (r < 35) update(node);
+			else if (r < 75) work(node, (int)rng.below(6));
+			else if (r < 88 && layout == 'S') { snprintf(buf, sizeof buf, "K %c %d %d", "AB"[node], 1 - node, (int)rng.below(2)); out.push_back(buf); }
+			else if (r < 93) { snprintf(buf, sizeof buf, "B %c %ld", "AB"[node], now); out.push_back(buf); }
 			continue;
 		}
-		if (r < 22) {
-			/* symmetric link change: both views flip, then usually both update */
+		if (r < 18) {
+			/* symmetric link change: both views flip, then usually both update, then often both get the same work */
 			bool v = !(up[0] && up[1]);
 			for (int k = 0; k < 2; k++) { snprintf(buf, sizeof buf, "K %c %d %d", "AB"[k], 1 - k, v ? 1 : 0); out.push_back(buf); up[k] = v; }
-			if (rng.below(4)) for (int k = 0; k < 2; k++) { snprintf(buf, sizeof buf, "U %c %ld", "AB"[k], now); out.push_back(buf); }
-		} else if (r < 32) {
+			if (rng.below(4)) for (int k = 0; k < 2; k++) update(k);
+			if (rng.below(2)) { int w = (int)rng.below(6); if (w == 3) w = 0; long save = (long)rng.s; for (int k = 0; k < 2; k++) { rng.s = (uint64_t)save; work(k, w); } }
+		} else if (r < 26) {
 			up[node] = !up[node];
 			snprintf(buf, sizeof buf, "K %c %d %d", "AB"[node], 1 - node, up[node] ? 1 : 0); out.push_back(buf);
-		} else if (r < 40 && nExtra) {
+		} else if (r < 32 && nExtra) {
 			snprintf(buf, sizeof buf, "K %c %d %d", "AB"[node], 2 + (int)rng.below(nExtra), (int)rng.below(2)); out.push_back(buf);
-		} else if (r < 70) {
-			snprintf(buf, sizeof buf, "U %c %ld", "AB"[node], now); out.push_back(buf);
+		} else if (r < 52) {
+			update(node);
 		} else if (r < 90) {
-			snprintf(buf, sizeof buf, "T %c %ld", "AB"[node], now); out.push_back(buf);
+			work(node, (int)rng.below(6));
 		} else if (r < 95) {
 			long st = rng.below(6) == 0 ? 0 : now;
 			snprintf(buf, sizeof buf, "B %c %ld", "AB"[node], st); out.push_back(buf);
 			up[node] = false;
 		} else {
-			snprintf(buf, sizeof buf, "U A %ld", now); out.push_back(buf);
-			snprintf(buf, sizeof buf, "U B %ld", now); out.push_back(buf);
+			update(0);
+			update(1);
 		}
 	}
 	clock = now;
@@ -221,8 +271,6 @@ static std::vector<std::string> Generate(uint64_t seed, bool thorough)
 	Rng rng(seed * 0x100000001b3ULL + 17);
 	long clock = 1000;
 	int n = thorough ? 30000 : 4000;
-	for (int i = 0; i < n; i++)
-		GenCase(rng, out, thorough, clock);
 	/* a block of pure hash ties, long names included */
 	out.push_back("C N 0 61 62 7a 79");
 	out.push_back("O h 0 1 68");
@@ -231,6 +279,12 @@ static std::vector<std::string> Generate(uint64_t seed, bool thorough)
 		if (i % 50 == 0) for (int k = 0; k < 5; k++) s += GenName(rng);
 		out.push_back("H " + Hex(s));
 	}
+	/* the cases without an ApiListener come first: the listener is a singleton that cannot be taken away again, and the
+	 * virtual clock of the process only moves forward (the timers are process-global) */
+	for (int i = 0; i < n / 20; i++)
+		GenCase(rng, out, thorough, clock, true);
+	for (int i = 0; i < n - n / 20; i++)
+		GenCase(rng, out, thorough, clock, false);
 	return out;
 }
 
@@ -244,7 +298,13 @@ struct Obj {
 	ConfigObject::Ptr ptr;
 };
 
-struct Counters { long pause = 0, resume = 0, setPaused = 0; };
+struct Counters { long pause = 0, resume = 0, setPaused = 0, execs = 0; };
+static std::mutex l_CountersMutex;           /* signals and commands also run on other threads (X, thread pool) */
+static NotificationComponent::Ptr l_NC;
+static CheckerComponent::Ptr l_CC;
+static std::atomic<long> l_NotifQueued{0}, l_NotifDone{0};
+static std::string l_TimerSeq;               /* which of the two timers ran during the current pump, in order */
+static std::vector<std::string> l_TimerObs;
 
 static int l_Node = 0;                       /* 0 = A, 1 = B */
 static ApiListener::Ptr l_Listener;
@@ -311,8 +371,17 @@ static void EnsureListener()
 
 /* Cluster events enqueue relay messages on the listener's work queues whenever an object changes; their
  * worker threads read the object registry.  Join them before the registry is touched and before observing. */
+static void WaitNotifs()
+{
+	for (int i = 0; l_NotifDone.load() < l_NotifQueued.load(); i++) {
+		if (i > 100000) Die("notification helpers did not finish");
+		std::this_thread::sleep_for(std::chrono::microseconds(100));
+	}
+}
+
 static void Sync()
 {
+	WaitNotifs();
 	if (!l_Listener) return;
 	ApiListener *l = l_Listener.get();
 	(l->*get(RelayQTag())).Join();
@@ -333,14 +402,23 @@ static Value GetF(const ConfigObject::Ptr& o, const char *field)
 	return o->GetField(id);
 }
 
+static void TimerRan(char which);
+static Value NotifExec(const std::vector<Value>& args);
+static void CheckExec(const Checkable::Ptr& checkable, const CheckResult::Ptr& cr, const Dictionary::Ptr&, bool);
+
 static ConfigObject::Ptr Create(const Obj& o, const std::string& baseHost)
 {
 	ConfigObject::Ptr p;
 	String name = String(o.name);
 	switch (o.type) {
-		case 'h': { Host::Ptr h = new Host(); p = h; break; }
-		case 's': { Service::Ptr s = new Service(); SetF(s, "host_name", String(baseHost)); s->SetShortName(name, true); p = s; break; }
-		case 'n': { Notification::Ptr n = new Notification(); SetF(n, "host_name", String(baseHost)); p = n; break; }
+		/* checkables: recording check command; never due unless a D line says so */
+		case 'h': { Host::Ptr h = new Host(); h->SetCheckCommandRaw("vcmd"); h->SetCheckInterval(1e9); h->SetRetryInterval(1e9);
+			h->SetNextCheck(4e9, true); p = h; break; }
+		case 's': { Service::Ptr s = new Service(); SetF(s, "host_name", String(baseHost)); s->SetShortName(name, true);
+			s->SetCheckCommandRaw("vcmd"); s->SetCheckInterval(1e9); s->SetRetryInterval(1e9); s->SetNextCheck(4e9, true); p = s; break; }
+		/* notifications of the case's first host: recording command, one user */
+		case 'n': { Notification::Ptr n = new Notification(); SetF(n, "host_name", String(baseHost));
+			SetF(n, "command", String("vncmd")); n->SetUsersRaw(new Array({ String("vuser") })); p = n; break; }
 		case 'd': { Downtime::Ptr d = new Downtime(); SetF(d, "host_name", String(baseHost)); d->SetFixed(true);
 			d->SetStartTime(4e9); d->SetEndTime(4e9 + 3600); d->SetEntryTime(1); d->SetAuthor("v"); d->SetComment("v"); p = d; break; }
 		case 'c': { Comment::Ptr c = new Comment(); SetF(c, "host_name", String(baseHost)); c->SetAuthor("v"); c->SetText("v"); p = c; break; }
@@ -377,7 +455,7 @@ static void TearDown()
 	Sync();
 	for (size_t i = l_Objs.size(); i-- > 0;) {
 		Obj& o = l_Objs[i];
-		if (!o.ptr || o.type == 'a') continue;
+		if (!o.ptr || o.type == 'a' || o.type == 'F' || o.type == 'K') continue;
 		if (o.active && o.type != 'k' && o.type != 'f' && o.type != 'e' && o.type != 'z')
 			o.ptr->Deactivate();
 		Sync();
@@ -385,7 +463,7 @@ static void TearDown()
 		o.ptr = nullptr;
 	}
 	l_Endpoints.clear();
-	l_Counters.clear();
+	{ std::unique_lock<std::mutex> lock(l_CountersMutex); l_Counters.clear(); }
 	l_Built = false;
 }
 
@@ -395,6 +473,8 @@ static void Build(long start)
 	TearDown();
 	Application::SetStartTime((double)start);
 	if (start > 0) SetNow((double)start);
+	/* a fresh process has not run UpdateObjectAuthority yet (ApiListener::UpdatedObjectAuthority()) */
+	get(UoaTag())->store(false);
 	std::string baseHost;
 	for (auto& o : l_Objs) if (o.type == 'h' && o.active) { baseHost = o.name; break; }
 	if (l_Layout != 'N') {
@@ -433,6 +513,8 @@ static void Build(long start)
 			l_Listener->PreActivate();
 			l_Listener->Activate();   /* ApiListener::Start(): registers the authority timer (10 s) among others */
 			l_ListenerStarted = true;
+			/* connected after the production handler: runs right after UpdateObjectAuthority() returned */
+			(l_Listener.get()->*get(AuthTimerTag()))->OnTimerExpired.connect([](const Timer * const&) { TimerRan('a'); });
 		}
 		size_t k = 0;
 		for (size_t i = 0; i < l_Endpoints.size(); i++) l_Objs[k++].ptr = l_Endpoints[i];
@@ -444,8 +526,17 @@ static void Build(long start)
 		l_Listener->SetAuthority(false);
 		Sync();
 	}
+	/* the node's started features live as long as the process, too */
+	{
+		size_t k = l_Derived - 2;
+		l_Objs[k].ptr = l_NC;
+		l_Objs[k + 1].ptr = l_CC;
+		l_NC->SetAuthority(false);
+		l_CC->SetAuthority(false);
+		Sync();
+	}
 	/* counters start here: what Activate() itself does (SetAuthority(true) for run-everywhere objects) is counted */
-	l_Counters.clear();
+	{ std::unique_lock<std::mutex> lock(l_CountersMutex); l_Counters.clear(); }
 	for (size_t i = l_Derived; i < l_Objs.size(); i++) {
 		Obj& o = l_Objs[i];
 		if ((o.type == 's' || o.type == 'n' || o.type == 'd' || o.type == 'c') && baseHost.empty())
@@ -459,18 +550,29 @@ static void Build(long start)
 static std::string Observe()
 {
 	std::string s;
-	char buf[96];
+	char buf[128];
 	if (!l_Built) return "-";
+	std::unique_lock<std::mutex> lock(l_CountersMutex);
 	for (size_t i = 0; i < l_Objs.size(); i++) {
 		Obj& o = l_Objs[i];
 		Counters c;
 		auto it = l_Counters.find(o.ptr.get());
 		if (it != l_Counters.end()) c = it->second;
-		snprintf(buf, sizeof buf, "%s%d:%ld:%ld:%ld", i ? "," : "", o.ptr->IsPaused() ? 1 : 0, c.pause, c.resume, c.setPaused);
+		long stash = 0;
+		if (o.type == 'n')
+			stash = (long)static_pointer_cast<Notification>(o.ptr)->GetStashedNotifications()->GetLength();
+		snprintf(buf, sizeof buf, "%s%d:%ld:%ld:%ld:%ld:%ld", i ? "," : "", o.ptr->IsPaused() ? 1 : 0, c.pause, c.resume, c.setPaused, c.execs, stash);
 		s += buf;
 	}
 	if (l_Objs.empty()) s = "-";
 	return s;
+}
+
+static void TimerRan(char which)
+{
+	Sync();
+	l_TimerSeq += which;
+	l_TimerObs.push_back(Observe());
 }
 
 static void DeriveObjects()
@@ -482,6 +584,8 @@ static void DeriveObjects()
 		if (l_Layout == 'S') l_Objs.push_back(Obj{'z', false, true, l_Zone2, nullptr});
 		l_Objs.push_back(Obj{'a', false, true, "api", nullptr});
 	}
+	l_Objs.push_back(Obj{'F', false, true, "vnc", nullptr});
+	l_Objs.push_back(Obj{'K', false, true, "vcc", nullptr});
 	l_Derived = l_Objs.size();
 }
 
@@ -527,7 +631,7 @@ static void RunLine(const std::string& line)
 	if (op == "O") {
 		if (w.size() != 5) Die("bad O line");
 		char t = w[1][0];
-		if (t == 'e' || t == 'z' || t == 'a') return; /* derived from the C line */
+		if (t == 'e' || t == 'z' || t == 'a' || t == 'F' || t == 'K') return; /* derived from the C line */
 		if (l_Built) Die("O line after the first B line");
 		Obj o{t, w[2] == "1", w[3] == "1", "", nullptr};
 		if (!UnHex(w[4], o.name)) Die("bad hex");
@@ -574,23 +678,132 @@ static void RunLine(const std::string& line)
 				SetNow((double)atol(w[2].c_str()));
 				ApiListener::UpdateObjectAuthority();
 			}
+		} else if (op == "X") {
+			if (w.size() != 4) Die("bad X line");
+			size_t idx = (size_t)atol(w[2].c_str());
+			if (mine) {
+				SetNow((double)atol(w[3].c_str()));
+				if (idx < l_Objs.size() && l_Objs[idx].ptr) {
+					ConfigObject::Ptr obj = l_Objs[idx].ptr;
+					std::atomic<int> entered{0};
+					std::thread t1, t2;
+					{
+						ObjectLock olock(obj);
+						auto body = [&entered]() { entered++; ApiListener::UpdateObjectAuthority(); };
+						t1 = std::thread(body);
+						t2 = std::thread(body);
+						while (entered.load() < 2) std::this_thread::yield();
+						/* both runs reach this object's SetAuthority within microseconds and block on the lock */
+						std::this_thread::sleep_for(std::chrono::microseconds(1500));
+					}
+					t1.join();
+					t2.join();
+				} else {
+					ApiListener::UpdateObjectAuthority();
+				}
+			}
+		} else if (op == "N") {
+			if (mine) {
+				SetNow((double)atol(w[2].c_str()));
+				Checkable::Ptr host;
+				for (auto& o : l_Objs) if (o.type == 'h' && o.active && o.ptr) { host = static_pointer_cast<Checkable>(o.ptr); break; }
+				if (host) {
+					CheckResult::Ptr cr = MakeCr(ServiceOK, 1, 1);
+					host->SetForceNextNotification(true);
+					Checkable::OnNotificationsRequested(host, NotificationCustom, cr, "a", "t", nullptr);
+				}
+			}
+		} else if (op == "D") {
+			if (w.size() != 4) Die("bad D line");
+			size_t idx = (size_t)atol(w[2].c_str());
+			if (mine && idx < l_Objs.size() && l_Objs[idx].ptr && (l_Objs[idx].type == 'h' || l_Objs[idx].type == 's')) {
+				double now = (double)atol(w[3].c_str());
+				SetNow(now);
+				Checkable::Ptr c = static_pointer_cast<Checkable>(l_Objs[idx].ptr);
+				auto execs = [&c]() { std::unique_lock<std::mutex> lock(l_CountersMutex); return l_Counters[c.get()].execs; };
+				auto where = [&c](bool& idle, bool& pend) {
+					CheckerComponent *cc = l_CC.get();
+					std::unique_lock<std::mutex> lock(cc->*get(CcMtxTag()));
+					auto& i = cc->*get(CcIdleTag());
+					auto& p = cc->*get(CcPendTag());
+					idle = i.find(c) != i.end();
+					pend = p.find(c) != p.end();
+				};
+				long before = execs();
+				c->SetNextCheck(now);   /* OnNextCheckChanged -> the checker re-indexes it and wakes its scheduler thread */
+				bool idle, pend;
+				where(idle, pend);
+				if (idle || pend) {
+					/* the scheduler knows the object: it must run the check now; wait for the command and for the helper */
+					for (int i = 0; execs() == before; i++) {
+						if (i > 100000) Die("due check of a scheduled object was not executed");
+						std::this_thread::sleep_for(std::chrono::microseconds(100));
+					}
+					for (int i = 0; ; i++) {
+						where(idle, pend);
+						if (!pend) break;
+						if (i > 100000) Die("check helper did not finish");
+						std::this_thread::sleep_for(std::chrono::microseconds(100));
+					}
+				} else {
+					/* not this node's business: the check does not run; take the due time back so that it is not
+					 * run later at an unobserved moment when the node gains authority */
+					std::this_thread::sleep_for(std::chrono::microseconds(300));
+					c->SetNextCheck(4e9);
+				}
+			}
 		} else if (op == "T") {
 			if (mine) {
 				double now = (double)atol(w[2].c_str());
 				SetNow(now);
-				std::atomic<bool> *flag = get(UoaTag());
-				flag->store(false);
+				l_TimerSeq.clear();
+				l_TimerObs.clear();
 				Timer::VerifFireDue(now);
-				extra = flag->load() ? "f=1 " : "f=0 ";
+				Sync();
+				if (l_TimerSeq.empty()) {
+					extra = "f=- " + Observe();
+				} else {
+					extra = "f=" + l_TimerSeq;
+					for (auto& o : l_TimerObs) extra += " " + o;
+				}
 			} else {
-				extra = "f=0 ";
+				Sync();
+				extra = "f=- " + Observe();
 			}
+			Emit(opText, extra);
+			return;
 		} else {
 			Die("unknown op " + op);
 		}
 	}
 	Sync();
 	Emit(opText, extra + Observe());
+}
+
+/* recording commands */
+static Value NotifExec(const std::vector<Value>& args)
+{
+	/* {notification, user, cr, type, author, comment, resolvedMacros, useResolvedMacros} */
+	if (!args.empty()) {
+		Object::Ptr n = args[0];
+		std::unique_lock<std::mutex> lock(l_CountersMutex);
+		l_Counters[static_cast<ConfigObject *>(n.get())].execs++;
+	}
+	return Empty;
+}
+
+static void CheckExec(const Checkable::Ptr& checkable, const CheckResult::Ptr& cr, const Dictionary::Ptr&, bool)
+{
+	{
+		std::unique_lock<std::mutex> lock(l_CountersMutex);
+		l_Counters[checkable.get()].execs++;
+	}
+	double now = Utility::GetTime();
+	cr->SetState(ServiceOK);
+	cr->SetOutput("x");
+	cr->SetExecutionEnd(now);
+	cr->SetScheduleEnd(now);
+	checkable->ProcessCheckResult(cr);
 }
 
 /* ------------------------------------------------------------------------------------------- */
@@ -601,27 +814,60 @@ static int NodeMain(int argc, char **argv, const std::string& mode, char node)
 	InitIcinga();
 	SetNow(1000);
 
-	ConfigObject::OnPausedChanged.connect([](const ConfigObject::Ptr& o, const Value&) { l_Counters[o.get()].setPaused++; });
+	ConfigObject::OnPausedChanged.connect([](const ConfigObject::Ptr& o, const Value&) {
+		std::unique_lock<std::mutex> lock(l_CountersMutex);
+		l_Counters[o.get()].setPaused++;
+	});
 	ConfigObject::OnPauseCalledChanged.connect([](const ConfigObject::Ptr& o, const Value&) {
-		if (GetF(o, "pause_called").ToBool()) l_Counters[o.get()].pause++;
+		if (GetF(o, "pause_called").ToBool()) { std::unique_lock<std::mutex> lock(l_CountersMutex); l_Counters[o.get()].pause++; }
 	});
 	ConfigObject::OnResumeCalledChanged.connect([](const ConfigObject::Ptr& o, const Value&) {
-		if (GetF(o, "resume_called").ToBool()) l_Counters[o.get()].resume++;
+		if (GetF(o, "resume_called").ToBool()) { std::unique_lock<std::mutex> lock(l_CountersMutex); l_Counters[o.get()].resume++; }
 	});
+
+	/* notification helpers run on the thread pool: queued (synchronous signal at the end of BeginExecuteNotification)
+	 * vs. done (signal after the command returned) */
+	Checkable::OnNotificationSentToAllUsers.connect([](const Notification::Ptr&, const Checkable::Ptr&, const std::set<User::Ptr>& users,
+		const NotificationType&, const CheckResult::Ptr&, const String&, const String&, const MessageOrigin::Ptr&) {
+		l_NotifQueued += (long)users.size();
+	});
+	Checkable::OnNotificationSentToUser.connect([](const Notification::Ptr&, const Checkable::Ptr&, const User::Ptr&,
+		const NotificationType&, const CheckResult::Ptr&, const String&, const String&, const String&, const MessageOrigin::Ptr&) {
+		l_NotifDone++;
+	});
+
+	NotificationCommand::Ptr ncmd = new NotificationCommand();
+	ncmd->SetName("vncmd");
+	ncmd->SetExecute(new Function("vnexec", NotifExec, { "notification", "user", "cr", "itype", "author", "comment", "resolvedMacros", "useResolvedMacros" }));
+	ncmd->Register();
+	CheckCommand::Ptr ccmd = new CheckCommand();
+	ccmd->SetName("vcmd");
+	ccmd->SetExecute(new Function("vexec", CheckExec, { "checkable", "cr", "resolvedMacros", "useResolvedMacros" }));
+	ccmd->Register();
+	User::Ptr user = new User();
+	user->SetName("vuser");
+	user->Register();
+
+	/* the node's real, started features: NotificationComponent::Start() connects OnNotificationsRequested -> SendNotifications
+	 * and creates the 5 s notification timer; CheckerComponent::OnConfigLoaded()/Start() connect ObjectHandler and run the
+	 * scheduler thread */
+	l_NC = new NotificationComponent();
+	l_NC->SetName("vnc");
+	l_NC->Register();
+	l_NC->PreActivate();
+	l_NC->Activate();
+	(l_NC.get()->*get(NotifTimerTag()))->OnTimerExpired.connect([](const Timer * const&) { TimerRan('n'); });
+	l_CC = new CheckerComponent();
+	l_CC->SetName("vcc");
+	l_CC->Register();
+	static_pointer_cast<ConfigObject>(l_CC)->OnConfigLoaded();
+	l_CC->PreActivate();
+	l_CC->Activate();
 
 	std::vector<std::string> lines;
 	if (mode == "gen") {
 		uint64_t seed = strtoull(argOr(argc, argv, "--seed", "1"), nullptr, 10);
 		lines = Generate(seed, std::string(argOr(argc, argv, "--tier", "quick")) == "thorough");
-		/* cases without a listener must come first in this process */
-		std::vector<std::string> first, rest;
-		bool inN = false;
-		for (auto& l : lines) {
-			if (l[0] == 'C') inN = l.size() > 2 && l[2] == 'N';
-			(inN ? first : rest).push_back(l);
-		}
-		lines = first;
-		lines.insert(lines.end(), rest.begin(), rest.end());
 	} else {
 		FILE *f = fopen(argv[2], "r");
 		if (!f) { perror("open"); return 2; }
